@@ -115,6 +115,8 @@ func runC01(r *Run) {
 	r.Import("R10/C20.", []string{"R1"}, func(r2 *Run) { detProcessLocalWrites(r2, sc) })
 	r.Rule("R11", "DET.local-time: a time.Time built in consensus scope from a timestamp (time.Unix / UnixMilli / UnixMicro, which return the host's local zone) or converted with Local()/In(time.Local) is not queried for calendar fields or formatted (Year, Month, Day, Hour, Weekday, YearDay, Date, Clock, ISOWeek, Format, String, AddDate, Truncate to days, Zone, Location, MarshalJSON/Text) unless it went through UTC() first: the result depends on the validator's TZ setting")
 	detLocalTime(r, sc, S)
+	r.Rule("R12", "OWN.shared-memory-through-aliases: (a) in consensus scope the receiver of a mutating math/big.Int / uint256.Int method never aliases a pointer held by a package-level variable of any package (common.Big1 and the like) — followed through phis, locals, big.Int's receiver-returning methods, functions that return a parameter, and math.BigMax/BigMin; (b) every package-level slice of a Haqq package that is used as the first argument of append has an initialiser with len == cap (composite literal, constant conversion, make(n, n)) — with spare capacity the append writes the one backing array that block execution and concurrent queries share")
+	detSharedAliasWrites(r, sc, S, "R12")
 	runDetControls(r)
 	_ = P
 }
